@@ -459,14 +459,19 @@ class CommentGenerator:
         if instruction.address != self.exp_addr:
             self.ctx = None
         decoder, template, fctx = self.ops[instruction.bytes[0]]
-        if decoder is None:
-            rv = template
-        elif template is None:
-            rv = decoder(instruction.address, instruction.bytes)
-        elif isinstance(template, str):
-            rv = decoder(template, instruction.address, instruction.bytes)
-        else:
-            rv = decoder(*template, instruction.address, instruction.bytes)
+        try:
+            if decoder is None:
+                rv = template
+            elif template is None:
+                rv = decoder(instruction.address, instruction.bytes)
+            elif isinstance(template, str):
+                rv = decoder(template, instruction.address, instruction.bytes)
+            else:
+                rv = decoder(*template, instruction.address, instruction.bytes)
+        except IndexError:
+            # The byte sequence is incomplete: a prefix on its own, or an
+            # instruction cut off by the 64K boundary
+            rv, fctx = '', None
         if isinstance(rv, str):
             comment = rv
         else:
